@@ -43,7 +43,11 @@ pub enum Event {
         s: bool,
     },
     /// Uniform used to choose between the proposals of two merged subtrees.
-    NutsMergeU { u: f64, n_first: usize, n_second: usize },
+    NutsMergeU {
+        u: f64,
+        n_first: usize,
+        n_second: usize,
+    },
     /// Result of one doubling and the uniform used to accept its proposal.
     NutsAcceptU {
         u: f64,
@@ -102,7 +106,7 @@ pub fn emit<F: FnOnce() -> Event>(f: F) {
 #[derive(Debug, Clone, Copy, PartialEq, Eq)]
 pub enum Proto {
     /// A chain worker sent a statistics message; `last` marks the final one.
-    Sent { n: u64, last: bool, delivered: bool },
+    Sent { n: u64, last: bool },
     /// A chain worker finished its loop.
     WorkerDone,
     /// The reporter thread finished one polling iteration.
